@@ -1,10 +1,200 @@
-use crate::c08::analyze_layout;
-#[test]
-fn c06_probe() {
-    let t = std::time::Instant::now();
-    for i in 0..20u8 {
-        let r = analyze_layout(&[0x60, 0x01, 0x60, i, 0x55, 0x00]);
-        if i == 0 { println!("{r:?}"); }
+//! C06 (no missed slots): every SLOAD / SSTORE with a literal key on an explored path must leave at least one
+//! layout entry at exactly that 256-bit index whenever the analysis succeeds — for reads of never-written slots,
+//! plain writes, writes of values so large that they are culled, masked copies of a slot into itself, and mixes
+//! of those on one path or on the two arms of a branch.  Keys: small, >= 2^32, >= 2^64, >= 2^128, 2^255, 2^256-1,
+//! EIP-1967 constants (keys that are keccak256 of a small number denote array data and are skipped).
+use std::collections::BTreeSet;
+
+use ethnum::U256;
+use sha3::{Digest, Keccak256};
+
+use crate::{
+    c08::{analyze, Out},
+    scale,
+    witness,
+    Rng,
+};
+
+fn keccak(bytes: &[u8]) -> U256 {
+    let mut h = Keccak256::new();
+    h.update(bytes);
+    U256::from_be_bytes(h.finalize().as_slice().try_into().expect("32 bytes"))
+}
+
+fn p32(c: &mut Vec<u8>, k: U256) { c.push(0x7f); c.extend(k.to_be_bytes()); }
+fn pmin(c: &mut Vec<u8>, k: U256) {
+    let b = k.to_be_bytes();
+    let z = b.iter().take_while(|v| **v == 0).count();
+    if z == 32 { c.extend([0x60, 0x00]); } else { c.push(0x5f + (32 - z) as u8); c.extend(&b[z..]); }
+}
+
+pub fn literal_keys(extra_random: u64) -> Vec<U256> {
+    let one = U256::ONE;
+    let mut v = vec![
+        U256::ZERO, one, U256::new(3), U256::new(255), U256::new(256),
+        one << 32u32, (one << 64u32) - one, one << 64u32, (one << 64u32) + one,
+        one << 128u32, (one << 128u32) + one, one << 160u32, one << 255u32, (one << 255u32) + one, U256::MAX,
+        // bytes32(uint256(keccak256("eip1967.proxy.implementation")) - 1) and the admin slot
+        keccak(b"eip1967.proxy.implementation") - one,
+        keccak(b"eip1967.proxy.admin") - one,
+    ];
+    let mut rng = Rng::seeded(600);
+    for _ in 0..extra_random { v.push(rng.word()); }
+    // keccak256(n) for the slot numbers the tool recognises denotes the data of the array at slot n
+    let hashed: BTreeSet<U256> = (0..10_000u64).map(|n| keccak(&U256::from(n).to_be_bytes())).collect();
+    v.retain(|k| !hashed.contains(k));
+    v
+}
+
+struct Case { ob: &'static str, what: String, code: Vec<u8>, must: Vec<U256> }
+
+fn run_cases(name: &str, cases: Vec<Case>) {
+    std::panic::set_hook(Box::new(|_| {}));
+    let n = cases.len();
+    let workers = 12usize;
+    let chunks: Vec<&[Case]> = cases.chunks((n + workers - 1) / workers.max(1)).collect();
+    let mut failed = 0usize;
+    let results: Vec<Vec<(usize, Out)>> = std::thread::scope(|s| {
+        let hs: Vec<_> = chunks.iter().map(|ch| s.spawn(move || ch.iter().enumerate().map(|(i, c)| (i, analyze(&c.code, true))).collect::<Vec<_>>())).collect();
+        hs.into_iter().map(|h| h.join().unwrap_or_default()).collect()
+    });
+    for (ch, rs) in chunks.iter().zip(results) {
+        for (i, out) in rs {
+            let c = &ch[i];
+            let hexcode: String = c.code.iter().map(|b| format!("{b:02x}")).collect();
+            match out {
+                Out::Panic => witness("C01", "analyze.panic", format!("{}: {hexcode}", c.what), "PANIC".into(), "layout or error".into()),
+                Out::Err(_) => failed += 1,
+                Out::Ok(slots) => {
+                    for k in &c.must {
+                        if !slots.iter().any(|(ix, _)| ix == k) {
+                            let got: Vec<String> = slots.iter().map(|(ix, off)| format!("{ix:#x}@{off}")).collect();
+                            witness("C06", c.ob, format!("{}: {hexcode}", c.what), format!("entries [{}]", got.join(", ")), format!("an entry at index {k:#x}"));
+                        }
+                    }
+                }
+            }
+        }
     }
-    println!("20 analyses: {:?}", t.elapsed());
+    if failed > 0 { println!("NOTE {name}: {failed} of {n} analyses returned an error (C06 speaks about successful analyses only)"); }
+    println!("CASES {name} {n}");
+}
+
+const MASK_BITS: [u32; 4] = [8, 32, 128, 160];
+
+fn read_only(k: U256, short: bool) -> Vec<u8> { let mut c = vec![]; if short { pmin(&mut c, k) } else { p32(&mut c, k) }; c.extend([0x54, 0x50, 0x00]); c }
+fn write_only(k: U256, v: u8, short: bool) -> Vec<u8> { let mut c = vec![0x60, v]; if short { pmin(&mut c, k) } else { p32(&mut c, k) }; c.extend([0x55, 0x00]); c }
+fn big_value(k: U256, n: usize) -> Vec<u8> { let mut c = vec![0x36]; for _ in 0..n { c.extend([0x60, 0x01, 0x01]); } p32(&mut c, k); c.extend([0x55, 0x00]); c }
+fn masked_self_copy(k: U256, bits: u32) -> Vec<u8> {
+    let mut c = vec![];
+    p32(&mut c, k);
+    c.push(0x54);
+    pmin(&mut c, (U256::ONE << bits) - U256::ONE);
+    c.push(0x16);
+    p32(&mut c, k);
+    c.extend([0x55, 0x00]);
+    c
+}
+
+#[test]
+fn c06_slot_reported_for_constant_key_read_only_and_write_only() {
+    let mut cases = vec![];
+    for k in literal_keys(2 * scale()) {
+        cases.push(Case { ob: "slots.read_only", what: format!("PUSH32 {k:#x} SLOAD POP"), code: read_only(k, false), must: vec![k] });
+        cases.push(Case { ob: "slots.read_only", what: format!("PUSHn {k:#x} SLOAD POP"), code: read_only(k, true), must: vec![k] });
+        // the loaded word is returned
+        let mut c = vec![];
+        p32(&mut c, k);
+        c.extend([0x54, 0x60, 0x00, 0x52, 0x60, 0x20, 0x60, 0x00, 0xf3]);
+        cases.push(Case { ob: "slots.read_only", what: format!("return sload({k:#x})"), code: c, must: vec![k] });
+        for v in [0u8, 0xff] { cases.push(Case { ob: "slots.write_only", what: format!("sstore({k:#x}, {v})"), code: write_only(k, v, v == 0xff), must: vec![k] }); }
+        // sstore(k, calldataload(0))
+        let mut c = vec![0x60, 0x00, 0x35];
+        p32(&mut c, k);
+        c.extend([0x55, 0x00]);
+        cases.push(Case { ob: "slots.write_only", what: format!("sstore({k:#x}, calldataload(0))"), code: c, must: vec![k] });
+    }
+    run_cases("c06_read_only_write_only", cases);
+}
+
+#[test]
+fn c06_slot_reported_for_constant_key_big_value() {
+    let mut cases = vec![];
+    for k in literal_keys(scale()) {
+        // the stored tree has 1 + 2N nodes: 249 at N = 124, over the default limit of 250 from N = 125 on
+        for n in [1usize, 124, 125, 130] {
+            cases.push(Case { ob: "slots.big_value", what: format!("sstore({k:#x}, calldatasize (+1)x{n})"), code: big_value(k, n), must: vec![k] });
+        }
+    }
+    // the same with the culled word passing through memory and a DUP before the store
+    for k in literal_keys(0).into_iter().step_by(3) {
+        let mut c = vec![0x36];
+        for _ in 0..126 { c.extend([0x60, 0x01, 0x01]); }
+        c.extend([0x80, 0x60, 0x00, 0x52, 0x60, 0x00, 0x51]);
+        p32(&mut c, k);
+        c.extend([0x55, 0x50, 0x00]);
+        cases.push(Case { ob: "slots.big_value", what: format!("sstore({k:#x}, mload(0)) of a culled word"), code: c, must: vec![k] });
+    }
+    run_cases("c06_big_value", cases);
+}
+
+#[test]
+fn c06_slot_reported_for_constant_key_masked_self_copy() {
+    let mut cases = vec![];
+    for k in literal_keys(scale()) {
+        for bits in MASK_BITS {
+            cases.push(Case { ob: "slots.masked_self_copy", what: format!("sstore({k:#x}, sload({k:#x}) & (2^{bits}-1))"), code: masked_self_copy(k, bits), must: vec![k] });
+        }
+        // plain write-back of the loaded word
+        let mut c = vec![];
+        p32(&mut c, k);
+        c.push(0x54);
+        p32(&mut c, k);
+        c.extend([0x55, 0x00]);
+        cases.push(Case { ob: "slots.masked_self_copy", what: format!("sstore({k:#x}, sload({k:#x}))"), code: c, must: vec![k] });
+    }
+    run_cases("c06_masked_self_copy", cases);
+}
+
+#[test]
+fn c06_slot_reported_for_constant_key_mixed_use() {
+    let keys = literal_keys(scale());
+    let mut cases = vec![];
+    for (i, &k1) in keys.iter().enumerate() {
+        let k2 = keys[(i + 7) % keys.len()];
+        let k3 = keys[(i + 13) % keys.len()];
+        // one path: read k1, write k2, masked self copy of k3, big value into k1
+        let mut c = read_only(k1, false);
+        c.pop();
+        let mut w = write_only(k2, 1, false);
+        w.pop();
+        c.extend(w);
+        let mut m = masked_self_copy(k3, MASK_BITS[i % 4]);
+        m.pop();
+        c.extend(m);
+        c.extend(big_value(k1, 125));
+        cases.push(Case { ob: "slots.mixed", what: format!("sload({k1:#x}); sstore({k2:#x},1); masked self copy of {k3:#x}; culled store to {k1:#x}"), code: c, must: vec![k1, k2, k3] });
+        // two arms: if calldatasize { sstore(k2, 1) } else { sload(k1) }  — each arm alone is the only access to its key
+        let mut c = vec![0x36, 0x61, 0x00, 0x00, 0x57];
+        let mut a = read_only(k1, false);
+        c.append(&mut a);
+        let t = c.len();
+        c[2] = (t >> 8) as u8;
+        c[3] = t as u8;
+        c.push(0x5b);
+        c.extend(write_only(k2, 1, false));
+        cases.push(Case { ob: "slots.mixed", what: format!("if calldatasize {{ sstore({k2:#x},1) }} else {{ sload({k1:#x}) }}"), code: c, must: vec![k1, k2] });
+        // overwrite: sstore(k1, 1); sstore(k1, calldataload(0)); sload(k1) returned; sload(k3) dropped
+        let mut c = write_only(k1, 1, false);
+        c.pop();
+        c.extend([0x60, 0x00, 0x35]);
+        p32(&mut c, k1);
+        c.push(0x55);
+        p32(&mut c, k3);
+        c.extend([0x54, 0x50]);
+        p32(&mut c, k1);
+        c.extend([0x54, 0x60, 0x00, 0x52, 0x60, 0x20, 0x60, 0x00, 0xf3]);
+        cases.push(Case { ob: "slots.mixed", what: format!("sstore({k1:#x},1); sstore({k1:#x},calldataload(0)); sload({k3:#x}); return sload({k1:#x})"), code: c, must: vec![k1, k3] });
+    }
+    run_cases("c06_mixed_use", cases);
 }
